@@ -320,6 +320,9 @@ func (cc *cliCase) runAll() bool {
 	// ---- the same with an explicit output directory (-o out), closed by a second gen
 	goh(func() { cc.exampleHistory(name("o"), true, "", nil) })
 
+	// ---- history 5: gen of ANOTHER design, then gen of this design over the same directory
+	goh(func() { cc.priorHistory(name("p"), false, refDir, m1) })
+
 	// ---- history 3: example, gen
 	goh(func() {
 		dir, err := c.newModule(name("c"), cc.spec)
@@ -401,6 +404,7 @@ func (cc *cliCase) exampleHistory(modName string, oflag bool, refDir string, m1 
 		if len(outside) > 0 {
 			run.Count("files_written_outside_-o_directory(not a verdict)", len(outside))
 		}
+		cc.priorHistory(modName+"p", true, refDir, g1)
 	}
 	e1, st := h.invoke("example")
 	if st.Err != "" {
@@ -512,6 +516,94 @@ func (cc *cliCase) exampleHistory(modName string, oflag bool, refDir string, m1 
 		n := cc.compareGen(h, refDir, g1, root, g2, "the first goa gen -o out", "goa gen -o out over gen+example output", func(p string) bool { return isEx[p] })
 		logf("  [%s] closing gen: %d differences", h.history, n)
 	}
+	cc.done(hist)
+}
+
+// priorDesign is what the output directory held before: two HTTP services none
+// of the lab's designs names.
+const priorDesign = `package design
+
+import . "goa.design/goa/v3/dsl"
+
+var _ = API("c09prior", func() { Title("an earlier design") })
+
+var C09PriorType = Type("C09PriorType", func() {
+	Attribute("a", String)
+	Attribute("b", ArrayOf(Int))
+})
+
+var _ = Service("c09prior_one", func() {
+	Method("m", func() {
+		Payload(C09PriorType)
+		Result(C09PriorType)
+		HTTP(func() { POST("/c09prior/one") })
+	})
+})
+
+var _ = Service("c09prior_two", func() {
+	Method("n", func() {
+		Payload(String)
+		Result(ArrayOf(String))
+		HTTP(func() { POST("/c09prior/two") })
+	})
+})
+`
+
+// priorHistory: the output directory already holds the generated code of another
+// design (the design shrank / was replaced); goa gen of this design must leave
+// below gen/ exactly what it writes into a fresh directory ("independent of prior runs").
+func (cc *cliCase) priorHistory(modName string, oflag bool, refDir string, ref manifest) {
+	c := cc.c
+	run := c.run
+	dir, err := c.newModule(modName, cc.spec)
+	if err != nil {
+		run.Infra("cli module: %v", err)
+		return
+	}
+	designFile := filepath.Join(dir, "design", "design.go")
+	mine, err := os.ReadFile(designFile)
+	if err != nil {
+		run.Infra("cli module: %v", err)
+		return
+	}
+	if err := os.WriteFile(designFile, []byte(priorDesign), 0o644); err != nil {
+		run.Infra("cli module: %v", err)
+		return
+	}
+	h := &chain{c: c, history: "gen(other design),gen", dir: dir}
+	hist := "prior_gen"
+	if oflag {
+		h.history = "-o:gen(other design),gen"
+		hist = "o_prior_gen"
+		h.out = filepath.Join(dir, "out")
+		h.args = []string{"-o", "out"}
+	}
+	p1, st := h.invoke("gen")
+	if st.Err != "" {
+		run.Infra("goa gen of the fixed earlier design failed: %s %s", st.Err, clip(st.Stderr, 400))
+		return
+	}
+	left := 0
+	for p := range p1 {
+		if strings.Contains(p, "c09prior") {
+			left++
+		}
+	}
+	if left == 0 {
+		run.Inconclusive("the earlier design left no file of its own below gen/")
+		return
+	}
+	if err := os.WriteFile(designFile, mine, 0o644); err != nil {
+		run.Infra("cli module: %v", err)
+		return
+	}
+	g, st := h.invoke("gen", "GOMAXPROCS=2")
+	if st.Err != "" {
+		cc.failed(h, st, false)
+		return
+	}
+	n := cc.compareGen(h, refDir, ref, h.root(), g, "goa gen into a fresh directory", "goa gen into a directory that held the generated code of another design ("+fmt.Sprint(left)+" files of its own)", nil)
+	logf("  [%s] %d files of the earlier design, %d differences afterwards", h.history, left, n)
 	cc.done(hist)
 }
 
